@@ -1149,3 +1149,227 @@ C09_ALL = [C09_COPY_ZERO, C09_DATA_SIZE, C09_DATA_ARITY, C09_PREDICT, C09_PREDIC
            C09_SP_VIABILITY, C09_SP_MEAN, C09_SP_VARIANCE, C09_IN_MEAN, C09_IN_VIABILITY, C09_IN_VARIANCE,
            C09_VIABILITY_ALL, C09_MEAN_ALL, C09_VARIANCE_ALL, C09_MEAN_AVG, C09_VIABILITY_AVG]
 ALL += C09_ALL
+# ---- C20: synergy.py calculate_synergy, data.py create_single_treatment_effect_map / _array (vocabulary: end of Model/Synergy.v) ----
+# Arrays: 1-d int = `list Z`, 2-d int = the list of its rows with shape[1] = the explicit parameter `arity` (it is defined also
+# for zero rows), bool arrays likewise, float arrays = lists of exact rationals.  The effect map is a `pairdict` (py2gal).
+# Trusted per entry: one numpy / builtin call each; which of them raise (boolean mask of another length, `&` of other lengths,
+# mean of nothing, the last column of no columns, np.array of ragged rows) is part of the entry.
+_QC = "Qcanon.Qc"
+_ZS, _ZM, _BS, _BM, _QS = "list Z", "list list Z", "list bool", "list list bool", "list " + _QC
+_EMAP = "pairdict " + _QC
+_C20_NUMPY = [
+    ("CONTROL_SENTINEL_VALUE", "CONTROL_SENTINEL_VALUE", "Z"),                                   # Generated/Consts.v: read from common.py
+    ("treatment_ids.shape[1]", "Z.of_nat arity", "Z"),
+    ("__a.shape[0]", "Z.of_nat (length {a})", "Z"),                                              # first axis = number of rows
+    ("len(__a)", "Z.of_nat (length {a})", "Z"),
+    ("__a == __v", "np_eq2 {a} {v}", _BM, {"a": _ZM, "v": "Z"}),
+    ("__a == __v", "np_eq1 {a} {v}", _BS, {"a": _ZS, "v": "Z"}),
+    ("__a == __v", "{a} =? {v}", "bool", {"a": "Z", "v": "Z"}),
+    ("__a != __v", "np_ne1 {a} {v}", _BS, {"a": _ZS, "v": "Z"}),
+    ("__a != __v", "negb ({a} =? {v})", "bool", {"a": "Z", "v": "Z"}),
+    ("np.sum(__m, axis=1)", "np_sum_rows {m}", _ZS, {"m": _BM}),
+    ("~__m", "np_not {m}", _BS, {"m": _BS}),
+    ("__a & __b", "!np_and {a} {b}", _BS, {"a": _BS, "b": _BS}),
+    ("__a[__m, :]", "!np_select {m} {a}", _ZM, {"a": _ZM, "m": _BS}),
+    ("__a[:, -1]", "!np_last_col arity {a}", _ZS, {"a": _ZM}),
+    ("__a[__m]", "!np_select {m} {a}", _ZS, {"a": _ZS, "m": _BS}),
+    ("__a[__m]", "!np_select {m} {a}", _QS, {"a": _QS, "m": _BS}),
+    ("np.sort(__a, axis=1)", "np_sort_rows {a}", _ZM, {"a": _ZM}),
+    ("np.unique(__a)", "sorted_unique {a}", _ZS, {"a": _ZS}),
+    ("__a.flatten()", "concat {a}", _ZS, {"a": _ZM}),
+    ("np.any(__m)", "np_any {m}", "bool", {"m": _BS}),
+    ("np.mean(__x)", "!np_mean {x}", _QC, {"x": _QS}),
+    ("np.prod(__x)", "qprod {x}", _QC, {"x": _QS}),                                             # of a Python list of floats; 1.0 for []
+    ("zip(__a, __b, __c)", "zip3 {a} {b} {c}", "list (Z * list Z * %s)" % _QC, {"a": _ZS, "b": _ZM, "c": _QS}),
+    ("zip(__a, __b)", "combine {a} {b}", "list (Z * list Z)", {"a": _ZS, "b": _ZM}),
+    ("np.array(__l)", "!np_array_rows {l}", _ZM, {"l": _ZM}),
+    ("np.array(__l)", "{l}", _ZS, {"l": _ZS}),
+    ("np.array(__l)", "{l}", _QS, {"l": _QS}),
+    ("np.ones_like(__a, dtype=float)", "np_ones_like {a}", "list list " + _QC, {"a": _ZM}),
+]
+_C20_SYN = dict(
+    imports="Generated.Consts Model.Metrics Model.Synergy", out="SrcSynergy.v", overload=True, prims=_C20_NUMPY,
+    arith={_QC: {"Sub": "Qcanon.Qcminus"}}, float_consts={"1.0": ("q_one", _QC)}, key_error=5, index_error=4,
+    # create_single_treatment_effect_map(sample_ids=..., treatment_ids=..., observation=...) runs the translated function
+    kwcalls={"create_single_treatment_effect_map": (
+        "!src_create_single_treatment_effect_map arity {sample_ids} {treatment_ids} {observation}", _EMAP,
+        [("sample_ids", _ZS, None), ("treatment_ids", _ZM, None), ("observation", _QS, None)])},
+    ignore=["logger.warning(__a)"],
+)
+C20_EFFECT_MAP = dict(
+    _C20_SYN, file="src/batchie/data.py", func="create_single_treatment_effect_map", name="src_create_single_treatment_effect_map",
+    pyparams=["sample_ids", "treatment_ids", "observation"],
+    params=[("arity", "nat"), ("sample_ids", _ZS), ("treatment_ids", _ZM), ("observation", _QS)], returns=_EMAP,
+    vars={"single_treatment_mask": _BS, "single_treatment_observations": _QS, "single_treatment_treatments": _ZS,
+          "single_treatment_sample_ids": _ZS, "result": _EMAP, "current_sample_id": "Z", "current_treatment_id": "Z",
+          "mask": _BS, "single_effect": _QC},
+    raises=[("Experiment must have more than one treatment to get single treatment effects", 1)],
+)
+C20_EFFECT_ARRAY = dict(
+    _C20_SYN, file="src/batchie/data.py", func="create_single_treatment_effect_array", name="src_create_single_treatment_effect_array",
+    pyparams=["sample_ids", "treatment_ids", "observation"],
+    params=[("arity", "nat"), ("sample_ids", _ZS), ("treatment_ids", _ZM), ("observation", _QS)], returns="list list " + _QC,
+    vars={"single_treatment_effect_map": _EMAP, "result": "list list " + _QC, "idx": "Z", "current_sample_id": "Z",
+          "current_treatment_ids": _ZS, "treatment_idx": "Z", "current_treatment_id": "Z"},
+)
+C20_SYNERGY = dict(
+    _C20_SYN, file="src/batchie/synergy.py", func="calculate_synergy", name="src_calculate_synergy",
+    pyparams=["sample_ids", "treatment_ids", "observation", "strict"], pydefaults=["False"],
+    params=[("arity", "nat"), ("sample_ids", _ZS), ("treatment_ids", _ZM), ("observation", _QS), ("strict", "bool")],
+    returns="(list Z * list list Z * list %s)" % _QC,
+    vars={"single_treatment_effect_map": _EMAP, "single_treatment_mask": _BS, "multi_treatment_observation": _QS,
+          "multi_treatment_treatments": _ZM, "multi_treatment_sample_ids": _ZS, "result_synergy": _QS,
+          "result_treatment_ids": _ZM, "result_sample_ids": _ZS, "idx": "Z", "current_sample_id": "Z",
+          "current_treatment_ids": _ZS, "observation": _QC,        # the loop rebinds the parameter's name to the row's scalar
+          "single_effects": _QS, "current_treatment_id": "Z", "synergy": _QC},
+    raises=[("Experiment must have more than one treatment to calculate synergy", 1),
+            ("Sample and treatment ids must be the same length", 1), ("Sample and observation ids must be the same length", 1),
+            ("has no control for treatment", 1)],
+)
+ALL += [C20_EFFECT_MAP, C20_EFFECT_ARRAY, C20_SYNERGY]
+
+# ---- C20: models/main.py ModelEvaluation.mse / mse_variance / inter_chain_mse_variance (vocabulary: end of Model/Metrics.v) ----
+# A ModelEvaluation object is Metrics.evaluation (its four stored arrays); the properties predictions / observations / chain_ids
+# are translated themselves (`return self._x`) and the methods call those translations.  predictions is (n_experiments x n_thetas)
+# = the list of its rows; `ncols` is predictions.shape[1] (defined also for zero rows), needed by the column mask only.
+_QM = "list list " + _QC
+_EV_FIELDS = {"_predictions": ("evaluation", _QM, "ev_preds {obj}", "set_ev_preds {obj} {val}"),
+              "_observations": ("evaluation", _QS, "ev_obs {obj}", "set_ev_obs {obj} {val}"),
+              "_chain_ids": ("evaluation", _ZS, "ev_chains {obj}", "set_ev_chains {obj} {val}")}
+_C20_EV = dict(file="src/batchie/models/main.py", cls="ModelEvaluation", out="SrcMetrics.v", imports="Model.Metrics",
+               pyparams=["self"], params=[("self", "evaluation")], vars={}, overload=True)
+C20_EV_PREDICTIONS = dict(_C20_EV, func="predictions", name="src_ev_predictions", returns=_QM, fields=_EV_FIELDS)
+C20_EV_OBSERVATIONS = dict(_C20_EV, func="observations", name="src_ev_observations", returns=_QS, fields=_EV_FIELDS)
+C20_EV_CHAIN_IDS = dict(_C20_EV, func="chain_ids", name="src_ev_chain_ids", returns=_ZS, fields=_EV_FIELDS)
+_EV_NUMPY = [
+    ("self.predictions", "!src_ev_predictions self'", _QM),        # the translated properties
+    ("self.observations", "!src_ev_observations self'", _QS),
+    ("self.chain_ids", "!src_ev_chain_ids self'", _ZS),
+    ("__o[:, None]", "{o}", "colvec", {"o": _QS}),                  # the (n, 1) view of a 1-d array
+    ("__p[:, __s]", "!np_select_cols ncols {s} {p}", _QM, {"p": _QM, "s": _BS}),
+    ("__a - __c", "!np_sub_col {a} {c}", _QM, {"a": _QM, "c": "colvec"}),
+    ("__x ** 2", "np_square2 {x}", _QM, {"x": _QM}),
+    ("__x.mean()", "!np_mean_all {x}", _QC, {"x": _QM}),
+    ("__x.mean(axis=1)", "!np_mean_rows {x}", _QS, {"x": _QM}),
+    ("np.var(__x)", "!np_var {x}", _QC, {"x": _QS}),
+    ("np.unique(__a)", "sorted_unique {a}", _ZS, {"a": _ZS}),
+    ("__a == __v", "np_eq_scalar {a} {v}", _BS, {"a": _ZS, "v": "Z"}),
+    ("np.array(__l)", "{l}", _QS, {"l": _QS}),                      # of a Python list of floats
+]
+C20_EV_MSE = dict(_C20_EV, func="mse", name="src_ev_mse", returns=_QC, prims=_EV_NUMPY)
+C20_EV_MSE_VARIANCE = dict(_C20_EV, func="mse_variance", name="src_ev_mse_variance", returns=_QC, prims=_EV_NUMPY)
+C20_EV_INTER_CHAIN = dict(
+    _C20_EV, func="inter_chain_mse_variance", name="src_ev_inter_chain_mse_variance", returns=_QC, prims=_EV_NUMPY,
+    params=[("ncols", "nat"), ("self", "evaluation")],
+    vars={"mses": _QS, "chain_id": "Z", "selection_vector": _BS, "chain_mse": _QC})
+ALL += [C20_EV_PREDICTIONS, C20_EV_OBSERVATIONS, C20_EV_CHAIN_IDS, C20_EV_MSE, C20_EV_MSE_VARIANCE, C20_EV_INTER_CHAIN]
+
+# ---- C20: models/main.py combination_count / generate_full_combinatoric_space (vocabulary: end of Model/Corr.v) ----
+# The screen is its treatment mapping `tm` (rows ((name, dose), id); names and doses are integers standing for the string
+# and the float), its sample mapping `sm` (rows (name, id)) and its arity.  The returned Screen is (sample_ids, treatment_ids).
+C20_COMBINATION_COUNT = dict(
+    file="src/batchie/models/main.py", func="combination_count", out="SrcSpace.v", imports="Model.Metrics Model.Synergy Model.Corr",
+    name="src_combination_count", pyparams=["n", "k"], params=[("n", "Z"), ("k", "Z")], returns="Z", vars={},
+    prims=[("math.factorial(__n)", "!py_factorial {n}", "Z", {"n": "Z"})],
+)
+_PAIRS = "list (Z * Z)"
+_CUBE = "list list (Z * Z)"
+C20_SPACE = dict(
+    file="src/batchie/models/main.py", func="generate_full_combinatoric_space", out="SrcSpace.v",
+    imports="Model.Metrics Model.Synergy Model.Corr", name="src_generate_full_combinatoric_space", overload=True,
+    pyparams=["sample_id", "screen"],
+    params=[("tm", "tmap3"), ("sm", _PAIRS), ("arity", "nat"), ("sample_id", "Z")], returns="(list Z * list list Z)",
+    vars={"all_treatments": _PAIRS, "combos": _CUBE, "treatment_names": _ZM, "treatment_doses": _ZM, "plate_names": "platecol",
+          "sample_name": "Z", "sample_ids": _ZS},
+    float_consts={"10000000.0": ("10000000", "Z")},          # int > float compares exactly
+    prims=[
+        ("screen.treatment_space_size", "Z.of_nat (length tm)", "Z"),          # len(self.treatment_mapping[0])
+        ("screen.treatment_arity", "Z.of_nat arity", "Z"),
+        ("combination_count(__n, __k)", "!src_combination_count {n} {k}", "Z", {"n": "Z", "k": "Z"}),     # the translated function
+        ("screen.treatment_mapping[0]", "tm_names tm", _ZS), ("screen.treatment_mapping[1]", "tm_doses tm", _ZS),
+        ("screen.sample_mapping[0]", "sm_names sm", _ZS), ("screen.sample_mapping[1]", "sm_ids sm", _ZS),
+        ("screen.treatment_mapping", "tm", "tmap3"), ("screen.sample_mapping", "sm", _PAIRS),
+        ("zip(__a, __b)", "combine {a} {b}", _PAIRS, {"a": _ZS, "b": _ZS}),
+        ("combinations(__l, __k)", "!py_combinations {l} {k}", _CUBE, {"l": _PAIRS, "k": "Z"}),
+        ("list(__l)", "{l}", _CUBE, {"l": _CUBE}),
+        ("np.array(__l, dtype=object)", "{l}", _CUBE, {"l": _CUBE}),
+        ("__c[:, :, 0]", "!cube_proj arity fst {c}", _ZM, {"c": _CUBE}),
+        ("__c[:, :, 1]", "!cube_proj arity snd {c}", _ZM, {"c": _CUBE}),
+        ("__c.shape[0]", "Z.of_nat (length {c})", "Z", {"c": _CUBE}),
+        ("['1'] * __n", "Z.to_nat {n}", "platecol", {"n": "Z"}),
+        ("[__x] * __n", "repeat {x} (Z.to_nat {n})", _ZS, {"x": "Z", "n": "Z"}),
+        ("np.array(__l)", "{l}", "platecol", {"l": "platecol"}), ("np.array(__l)", "{l}", _ZS, {"l": _ZS}),
+        ("dict(__p)", "dict_of_pairs {p}", "dict", {"p": _PAIRS}),
+        ("__d[__k]", "!dict_read {d} {k}", "Z", {"d": "dict", "k": "Z"}),
+        ("__a.astype(str)", "{a}", _ZM, {"a": _ZM}), ("__a.astype(str)", "{a}", _ZS, {"a": _ZS}),
+        ("__a.astype(FloatingPointType)", "{a}", _ZM, {"a": _ZM}),
+    ],
+    kwcalls={"Screen": (
+        "!space_screen {treatment_mapping} {sample_mapping} {treatment_names} {treatment_doses} {sample_names}", "(list Z * list list Z)",
+        [("treatment_names", _ZM, None), ("treatment_doses", _ZM, None), ("sample_names", _ZS, None), ("plate_names", "platecol", None),
+         ("sample_mapping", _PAIRS, None), ("treatment_mapping", "tmap3", None)])},
+    raises=[("The treatment space is too large for this method", 1)],
+)
+ALL += [C20_COMBINATION_COUNT, C20_SPACE]
+
+# ---- C20: models/main.py predict_viability_avg and retrospective.py calculate_mse (vocabulary: end of Model/Metrics.v) ----
+# A theta is the prediction vector it gives on the screen at hand (`theta_t`), the ThetaHolder the list `per_theta` of them; the
+# fully observed screen of calculate_mse is its observations (`obs_screen`), Screen.size their number.
+C20_PREDICT_AVG = dict(
+    file="src/batchie/models/main.py", func="predict_viability_avg", out="SrcMetrics.v", imports="Model.Metrics", overload=True,
+    name="src_predict_viability_avg", pyparams=["screen", "thetas"], params=[("size", "nat"), ("per_theta", _QM)], returns=_QS,
+    vars={"result": _QS, "theta_index": "Z", "theta": "theta_t", "sub_result": _QS},
+    prims=[
+        ("screen.size", "Z.of_nat size", "Z"),
+        ("np.zeros((__n,), dtype=FloatingPointType)", "np_zeros1 {n}", _QS, {"n": "Z"}),
+        ("thetas.n_thetas", "Z.of_nat (length per_theta)", "Z"),
+        ("thetas.get_theta(__i)", "!list_get per_theta {i}", "theta_t", {"i": "Z"}),       # the i-th theta (C10: get_theta)
+        ("__t.predict_viability(screen)", "{t}", _QS, {"t": "theta_t"}),
+        ("np.isnan(__x)", "np_isnan1 {x}", _BS, {"x": _QS}),
+        ("__m.any()", "np_any1 {m}", "bool", {"m": _BS}),
+        ("__a + __b", "!np_add1 {a} {b}", _QS, {"a": _QS, "b": _QS}),
+        ("__v / __n", "!np_div_int {v} {n}", _QS, {"v": _QS, "n": "Z"}),
+    ],
+    raises=[("NaN predictions were created", 1)],
+)
+C20_CALC_MSE = dict(
+    file="src/batchie/retrospective.py", func="calculate_mse", out="SrcMetrics.v", imports="Model.Metrics", overload=True,
+    name="src_calculate_mse", pyparams=["observed_screen", "thetas"], params=[("per_theta", _QM), ("obs", _QS)], returns=_QC,
+    vars={"preds": _QS},
+    prims=[
+        ("observed_screen", "obs", "obs_screen"), ("thetas", "per_theta", _QM),
+        ("__s.observations", "{s}", _QS, {"s": "obs_screen"}),
+        ("__a - __b", "!np_sub1 {a} {b}", _QS, {"a": _QS, "b": _QS}),
+        ("__x ** 2", "np_square1 {x}", _QS, {"x": _QS}),
+        ("np.mean(__x)", "!np_mean1 {x}", _QC, {"x": _QS}),
+    ],
+    # predict_viability_avg(screen=..., thetas=...) runs the translated function; screen.size = the number of observations
+    kwcalls={"predict_viability_avg": ("!src_predict_viability_avg (length {screen}) {thetas}", _QS,
+                                       [("screen", "obs_screen", None), ("thetas", _QM, None)])},
+)
+ALL += [C20_PREDICT_AVG, C20_CALC_MSE]
+# ModelEvaluation.mean_predictions (property): predictions.mean(axis=1)
+C20_EV_MEAN_PREDICTIONS = dict(_C20_EV, func="mean_predictions", name="src_ev_mean_predictions", returns=_QS, prims=_EV_NUMPY)
+ALL += [C20_EV_MEAN_PREDICTIONS]
+# ModelEvaluation.__init__: the dtype guards are true of what the wire carries (floats, ints, strings); `ncols` = predictions.shape[1]
+_EV_FIELDS4 = dict(_EV_FIELDS, _sample_names=("evaluation", "list list Z", "ev_names {obj}", "set_ev_names {obj} {val}"))
+C20_EV_INIT = dict(
+    _C20_EV, func="__init__", name="src_ev_init", pyparams=["self", "predictions", "observations", "chain_ids", "sample_names"],
+    params=[("self", "evaluation"), ("ncols", "nat"), ("predictions", _QM), ("observations", _QS), ("chain_ids", _ZS),
+            ("sample_names", "list list Z")],
+    returns="evaluation", fields=_EV_FIELDS4, implicit_return="{self}",
+    prims=[
+        ("np.issubdtype(predictions.dtype, FloatingPointType)", "true", "bool"),
+        ("np.issubdtype(observations.dtype, FloatingPointType)", "true", "bool"),
+        ("np.issubdtype(chain_ids.dtype, int)", "true", "bool"),
+        ("np.issubdtype(sample_names.dtype, str)", "true", "bool"),
+        ("len(predictions.shape)", "ndim_of ncols predictions'", "Z"),
+        ("predictions.shape[1]", "Z.of_nat ncols", "Z"),
+        ("__a.shape[0]", "Z.of_nat (length {a})", "Z"),
+    ],
+    raises=[("predictions must be floats", 1), ("observations must be floats", 1), ("chain_ids must be ints", 1),
+            ("sample_names must be str", 1), ("predictions and observations must have the same number of samples", 1),
+            ("sample_names and observations must be the same size", 1), ("Predictions must be a matrix", 1),
+            ("chain_ids must have one entry per theta", 1)],
+)
+ALL += [C20_EV_INIT]
